@@ -191,7 +191,9 @@ def _audit(event, args):
     if not _AUDIT["on"]:
         return
     if event == "os.utime":
-        _AUDIT["events"].append(("utime", args[0]))
+        # (path, times, ns, dir_fd): explicit times are data the program chose (its own clock), not "now" as the kernel sees it
+        explicit = len(args) > 2 and (args[1] is not None or args[2] is not None)
+        _AUDIT["events"].append(("utime-explicit" if explicit else "utime", args[0]))
     elif event == "open":
         path, mode, flags = args
         if isinstance(path, (str, bytes, os.PathLike)) and (flags & (os.O_WRONLY | os.O_RDWR | os.O_CREAT | os.O_TRUNC | os.O_APPEND)):
@@ -411,6 +413,7 @@ class Session:
 
             gl.Client.connect = classmethod(_refuse)
         os.chdir(cwd or self.proj)
+        self.last_cwd = os.getcwd()
         _AUDIT["events"] = []
         _AUDIT["on"] = True
         try:
@@ -466,24 +469,43 @@ class Session:
     def _restamp(self):
         """Give every file gwf touched/created a fresh virtual tick, in the order of the journaled events
         (the kernel clock is too coarse to order them)."""
+        def fresh(ns):  # stamped by the real kernel clock (or any clock other than this harness' rank clock)
+            off = ns - BASE * 10**9
+            return not (off % STEP_NS == 0 and 0 <= off < STEP_NS * 10**7)
+
         last = {}
         for k, (ev, path) in enumerate(self.touch_events):
             try:
-                p = os.path.realpath(os.fspath(path))
+                raw = os.path.abspath(os.path.join(self.last_cwd, os.fspath(path)))
             except TypeError:
                 continue
-            last[p] = k
+            # what the event may have stamped: the name itself (a symbolic link touched without following it) and the file behind it
+            for p, is_link in ((raw, True), (os.path.realpath(raw), False)):
+                if is_link and not os.path.islink(p):
+                    continue
+                last[(p, is_link)] = (k, ev)
         self.touch_events = []
         proj = os.path.realpath(self.proj)
-        for p, _k in sorted(last.items(), key=lambda kv: kv[1]):
-            if not p.startswith(proj + os.sep) or not os.path.isfile(p):
+        for (p, is_link), (_k, ev) in sorted(last.items(), key=lambda kv: kv[1][0]):
+            anchor = os.path.join(os.path.realpath(os.path.dirname(p)), os.path.basename(p)) if is_link else p
+            if not anchor.startswith(proj + os.sep):
                 continue
-            rel = os.path.relpath(p, proj)
+            rel = os.path.relpath(anchor, proj)
             if rel.startswith(".gwf") or rel in ("workflow.py", ".gwfconf.json"):
                 continue
+            if ev == "utime-explicit":
+                continue  # keeps the time the program chose; the snapshot orders such files after everything on the rank clock
+            try:
+                st = os.lstat(p) if is_link else os.stat(p)
+            except OSError:
+                continue
+            if not is_link and not os.path.isfile(p):
+                continue
+            if not fresh(st.st_mtime_ns):
+                continue  # the event did not actually stamp this one (e.g. a link touched without following it leaves its target alone)
             self.clock += 1
             t = rank_ns(self.clock)
-            os.utime(p, ns=(t, t))
+            os.utime(p, ns=(t, t), follow_symlinks=not is_link)
 
     # ------------------------------------------------------------------
     def snapshot(self) -> World:
